@@ -389,6 +389,7 @@ func labPol(e labEnv) {
 		w.put(in, out)
 		tags["rdns_cache_sequences"]++
 	}
+	hsTimedCases(e.t, r, n/2, w, tags)
 	must(w.close())
 	writeDist(e, "pol", tags)
 }
